@@ -425,10 +425,12 @@ def run(ctx):
             ctx.hit("wide_extents")
         else:
             case = A.gen_case(ctx.rng, multi_axis=False, k=ctx.rng.choice([1, 1, 2, 3]), N=ctx.rng.choice([1, 2, 4, 7, 10, 14]))
-        if it % 7 == 3:      # numerically adversarial facts: a large offset with a small spread, or constant non-dyadic cells
+        if it % 7 in (3, 5):      # numerically adversarial facts: a large offset with a small spread, or constant non-dyadic cells
+            if it >= nwide:       # few cells, many rows each: the spread inside a cell is what the statistic must see
+                case = A.gen_case(ctx.rng, multi_axis=False, k=1, N=14)
             shp = case["fact_vals"].shape
             n = int(np.prod(shp))
-            if ctx.rng.random() < 0.5:
+            if it % 7 == 3:
                 case["fact_vals"] = (1.7e9 + np.array([ctx.rng.randrange(0, 10) for _ in range(n)], dtype=float)).reshape(shp)
             else:
                 case["fact_vals"] = np.array([ctx.rng.choice([0.1, 0.1, 0.1, 0.3]) for _ in range(n)], dtype=float).reshape(shp)
